@@ -18,10 +18,13 @@ def run(rep, tier, seed):
                         "a fatal crash of the harness process (stack exhaustion) is attributed to the document in progress"]
     with Work("c10") as w:
         pre = w.path("docs")
-        r = tlc_must_pass(run_tlc(w, "CodecGen", "CodecGen.cfg", env={"OUT": pre}, workers=1, timeout=1800), "CodecGen")
+        r = tlc_must_pass(run_tlc(w, "CodecGen", "CodecGen.cfg", env={"OUT": pre, "DEPTH2": "1" if tier == "thorough" else "0"}, workers=1, timeout=1800), "CodecGen")
         if tier != "thorough":   # quick: depth 0 complete, a third of depth 1
             lines = open(pre + ".1").read().splitlines()
             open(pre + ".1", "w").write("\n".join(lines[seed % 3::3]) + "\n")
+        else:                    # thorough: depth 0 and 1 complete, every 6th document of depth 2 (rotating with the seed)
+            lines = open(pre + ".2").read().splitlines()
+            open(pre + ".2", "w").write("\n".join(lines[seed % 6::6]) + "\n")
         ev, prog = w.path("ev.ndjson"), w.path("progress.txt")
         p = run_vh(["codec-exec", "-in", pre, "-out", ev, "-progress", prog], timeout=3000, check=False)
         if p.returncode != 0:
@@ -73,7 +76,7 @@ def run(rep, tier, seed):
         rep.set("states", total)
         rep.set("transitions", total)
         rep.set("documents", {"space": s["documents"], "mutants_and_truncations": s2["documents"], "decoded_successfully": okdec, "each_as": "value document and as variable-map entry",
-                              "battery": "8 API calls + 36 scripts per decoded value", "exhaustive": tier == "thorough"})
+                              "battery": "8 API calls + 36 scripts per decoded value", "exhaustive": tier == "thorough", "depth2_sampled_every_6th": tier == "thorough"})
         rep.set("traces_validated_against_impl", total)
         rep.set("evaluations", total)
         rep.set("distinct_nontrivial", s["documents"] + s2["documents"])
